@@ -58,13 +58,13 @@ Qed.
 
 (* what a participant-level operation may do to the handle set *)
 Definition grows (k : part -> part * ret) : Prop :=
-  forall p, part_inv p -> pa_ovf (fst (k p)) = false ->
+  forall p, part_inv p ->
             counters_le p (fst (k p)) /\
             (forall x, In x (part_handles (fst (k p))) -> In x (part_handles p) \/ ~ old_in p x /\ x <> pa_h p).
 
 Lemma grows_keeps : forall k, keeps_skel k -> grows k.
 Proof.
-  intros k H p Hi Ho. destruct (H p) as [Hs _]. split; [apply counters_skel; auto|].
+  intros k H p Hi. pose proof (H p) as Hs. split; [apply counters_skel; auto|].
   intros x Hx. rewrite (part_handles_skel _ _ Hs) in Hx. auto.
 Qed.
 
@@ -95,15 +95,11 @@ Proof. intros [|] [|]; auto. Qed.
 
 Lemma grows_create_group : forall pr sd q, grows (fun p => create_group pr sd p q).
 Proof.
-  intros pr sd q p Hi Ho. unfold create_group in *.
-  set (cv := bump 255 (gcounter sd p)) in *.
+  intros pr sd q p Hi. unfold create_group.
+  destruct (next_id 255 (gcounter sd p)) as [c'|] eqn:Hn; [|split; [apply counters_le_refl|auto]].
+  destruct (next_id_some _ _ _ Hn) as [Hlt ->].
   set (h := child_handle (pa_h p) (gcounter sd p) 0 0 (group_kind sd)) in *.
-  assert (Hflag : pa_ovf p = false /\ snd cv = false).
-  { destruct (panics pr cv); cbn [fst] in Ho; [destruct sd; cbn in Ho|rewrite gs_ovf in Ho];
-      apply orb_false_iff in Ho; auto. }
-  destruct Hflag as [Hp Hcv]. destruct (bump_ok _ _ Hcv) as [Hlt Hfst]. fold cv in Hfst.
-  assert (Hpan : panics pr cv = false) by (destruct pr; cbn; auto).
-  rewrite Hpan in *. cbn [fst]. split.
+  cbn [fst]. split.
   - unfold counters_le. destruct sd; cbn in *; lia.
   - intros x Hx. apply in_part_handles in Hx. rewrite gs_h, gs_tproj in Hx.
     assert (Hcase : In x (part_handles p) \/ x = h).
@@ -124,7 +120,7 @@ Qed.
 
 Lemma grows_delete_group : forall sd parent gh, grows (fun p => delete_group sd p parent gh).
 Proof.
-  intros sd parent gh p Hi Ho. unfold delete_group in *.
+  intros sd parent gh p Hi. unfold delete_group in *.
   destruct (negb (heqb parent (pa_h p))); [split; [apply counters_le_refl|auto]|].
   destruct (find_first (is_group gh) (groups sd p)); [|split; [apply counters_le_refl|auto]].
   destruct (negb (is_nil (g_eps g))); [split; [apply counters_le_refl|auto]|].
@@ -140,7 +136,7 @@ Qed.
 
 Lemma grows_delete_endpoint : forall sd gh eh, grows (fun p => delete_endpoint sd p gh eh).
 Proof.
-  intros sd gh eh p Hi Ho. unfold delete_endpoint in *.
+  intros sd gh eh p Hi. unfold delete_endpoint in *.
   destruct (find_first (is_group gh) (groups sd p)); [|split; [apply counters_le_refl|auto]].
   destruct (find_first (is_ep eh) (g_eps g)); [|split; [apply counters_le_refl|auto]].
   cbn [fst]. split; [unfold counters_le; destruct sd; cbn; lia|].
@@ -160,26 +156,22 @@ Qed.
 
 Lemma grows_delete_contained : grows delete_contained.
 Proof.
-  intros p Hi Ho. unfold delete_contained. cbn [fst]. split; [unfold counters_le; cbn; lia|].
+  intros p Hi. unfold delete_contained. cbn [fst]. split; [unfold counters_le; cbn; lia|].
   intros x Hx. rewrite part_handles_proj in Hx. cbn in Hx. destruct Hx as [<-|[]]. left. rewrite part_handles_proj. left; auto.
 Qed.
 
 Lemma grows_create_cft : forall pr name related, grows (fun p => create_cft pr p name related).
 Proof.
-  intros pr name related p Hi Ho. unfold create_cft in *.
+  intros pr name related p Hi. unfold create_cft.
   destruct (negb (existsb (is_topic related) (pa_topics p))); [split; [apply counters_le_refl|auto]|].
-  set (cv := bump 65535 (pa_tc p)) in *.
-  assert (Hflag : pa_ovf p = false /\ snd cv = false).
-  { destruct (panics pr cv); cbn in Ho; apply orb_false_iff in Ho; auto. }
-  destruct Hflag as [Hp Hcv]. destruct (bump_ok _ _ Hcv) as [Hlt Hfst]. fold cv in Hfst.
-  assert (Hpan : panics pr cv = false) by (destruct pr; cbn; auto).
-  rewrite Hpan in *. cbn [fst]. split; [unfold counters_le; cbn; lia|].
+  destruct (next_id 65535 (pa_tc p)) as [c'|] eqn:Hn; [|split; [apply counters_le_refl|auto]].
+  destruct (next_id_some _ _ _ Hn) as [Hlt ->]. cbn [fst]. split; [unfold counters_le; cbn; lia|].
   intros x Hx. left. exact Hx.
 Qed.
 
 Lemma grows_delete_topic : forall parent name, grows (fun p => delete_topic p parent name).
 Proof.
-  intros parent name p Hi Ho. unfold delete_topic in *.
+  intros parent name p Hi. unfold delete_topic in *.
   destruct (negb (heqb (pa_h p) parent)); [split; [apply counters_le_refl|auto]|].
   destruct (find_first (is_topic name) (pa_topics p)); [|split; [apply counters_le_refl|auto]].
   destruct (existsb (uses_topic (t_name t)) (pa_pubs p)); [split; [apply counters_le_refl|auto]|].
@@ -192,25 +184,19 @@ Qed.
 
 Lemma grows_create_topic : forall pr name q, grows (fun p => create_topic pr p name q).
 Proof.
-  intros pr name q p Hi Ho. unfold create_topic in *.
+  intros pr name q p Hi. unfold create_topic.
   destruct (existsb (is_topic name) (pa_topics p)); [split; [apply counters_le_refl|auto]|].
-  set (cv := bump 65535 (pa_tc p)) in *.
+  match goal with |- context [match ?x with Some qos => _ | None => (p, RErr E_INCONSISTENT) end] =>
+    destruct x as [qos|] end; [|split; [apply counters_le_refl|auto]].
+  destruct (next_id 65535 (pa_tc p)) as [c'|] eqn:Hn; [|split; [apply counters_le_refl|auto]].
+  destruct (next_id_some _ _ _ Hn) as [Hlt ->].
   set (h := child_handle (pa_h p) 0 (lo8 (pa_tc p)) (hi8 (pa_tc p)) KIND_TOPIC) in *.
-  set (t := mkTp h name false (match q with Some x => x | None => pa_deftopic p end)) in *.
-  set (p2 := set_topics (set_tcounter p cv) (pa_topics (set_tcounter p cv) ++ [t])) in *.
-  destruct (create_topic_tail p2 name h (pa_en p && p_auto (pa_q p))) as (Hs & Hov & _).
-  cbn zeta in Hs, Hov.
-  assert (Hflag : pa_ovf p = false /\ snd cv = false).
-  { destruct (panics pr cv) eqn:Hpan.
-    - cbn [fst] in Ho. cbn in Ho. apply orb_false_iff in Ho; auto.
-    - rewrite Hov in Ho. cbn in Ho. apply orb_false_iff in Ho; auto. }
-  destruct Hflag as [Hp Hcv]. destruct (bump_ok _ _ Hcv) as [Hlt Hfst]. fold cv in Hfst.
-  assert (Hpan : panics pr cv = false) by (destruct pr; cbn; auto).
-  rewrite Hpan in *.
+  set (p2 := set_topics (set_tcounter p (pa_tc p + 1)) (pa_topics (set_tcounter p (pa_tc p + 1)) ++ [mkTp h name false qos])).
+  destruct (create_topic_tail p2 name h (pa_en p && p_auto (pa_q p))) as (Hs & _). cbn zeta in Hs.
   assert (H2 : counters_le p p2 /\ forall x, In x (part_handles p2) -> In x (part_handles p) \/ x = h).
   { split; [unfold counters_le, p2; cbn; lia|]. intros x Hx. unfold part_handles, p2 in *.
     cbn [pa_h pa_pubs pa_subs pa_topics set_topics set_tcounter] in *. destruct Hx as [<-|Hx]; [left; left; auto|].
-    rewrite !in_app_iff in Hx. rewrite map_app, in_app_iff in Hx. cbn [map t_h t In] in Hx.
+    rewrite !in_app_iff in Hx. rewrite map_app, in_app_iff in Hx. cbn [map t_h In] in Hx.
     destruct Hx as [Hx|[Hx|[Hx|[Hx|[]]]]]; auto; left; right; rewrite !in_app_iff; auto. }
   destruct H2 as [Hc Hh]. split.
   - destruct Hc as (c1 & c2 & c3 & c4 & c5). pose proof (counters_skel _ _ Hs) as (d1 & d2 & d3 & d4 & d5).
@@ -221,74 +207,61 @@ Proof.
     + destruct (pi_self _ Hi) as (i & _ & E). unfold h. rewrite E. unfold child_handle, part_handle; cbn. intros E'; inversion E'.
 Qed.
 
+Lemma grows_push_endpoint : forall sd p g name qos,
+    part_inv p -> ecounter sd p < 65535 ->
+    let h := child_handle (pa_h p) (h_k0 (g_h g)) (lo8 (ecounter sd p)) (hi8 (ecounter sd p)) (ep_kind sd) in
+    let p' := fst (push_endpoint sd (set_ecounter sd p (ecounter sd p + 1)) g h name qos) in
+    counters_le p p' /\ forall x, In x (part_handles p') -> In x (part_handles p) \/ ~ old_in p x /\ x <> pa_h p.
+Proof.
+  intros sd p g name qos Hi Hlt h p'. unfold p', push_endpoint. cbn [fst].
+  split; [unfold counters_le; destruct sd; cbn in *; lia|].
+  intros x Hx. apply in_part_handles in Hx. rewrite ps_h, es0_h, ps_tproj in Hx.
+  assert (Et : tproj (set_ecounter sd p (ecounter sd p + 1)) = tproj p) by (destruct sd; reflexivity). rewrite Et in Hx.
+  assert (Hcase : In x (part_handles p) \/ x = h).
+  { destruct Hx as [->|[[s Hx]|Hx]]; [left; apply in_part_handles; auto| |left; apply in_part_handles; auto].
+    destruct (side_eq_dec s sd) as [->| ->].
+    - rewrite sproj_set_groups_same, es_groups0 in Hx.
+      apply in_flat_map in Hx. destruct Hx as (ge & Hge & Hx').
+      apply in_map_iff in Hge. destruct Hge as (y & <- & Hy). apply upd_first_in in Hy.
+      destruct Hy as [Hy|(z & Hz & _ & ->)].
+      + left. apply in_part_handles. right; left. exists sd. apply in_flat_map. exists (gproj y). split; auto.
+        apply in_map; auto.
+      + unfold gsk_handles, gproj in Hx'. cbn [fst snd g_h g_eps set_group_eps] in Hx'.
+        assert (Hz' : In x (gsk_handles (gproj z)) -> In x (part_handles p)).
+        { intros H. apply in_part_handles. right; left. exists sd. apply in_flat_map. exists (gproj z).
+          split; [apply in_map; auto|exact H]. }
+        destruct Hx' as [H|H].
+        * left. apply Hz'. left. exact H.
+        * rewrite map_map, map_app, in_app_iff in H. destruct H as [H|H].
+          { left. apply Hz'. right. unfold gproj; cbn [snd]. rewrite map_map. exact H. }
+          { cbn in H. destruct H as [<-|[]]. right. reflexivity. }
+    - assert (E : forall l, sproj (other sd) (set_groups sd (set_ecounter sd p (ecounter sd p + 1)) l) = sproj (other sd) p)
+        by (intros; destruct sd; reflexivity).
+      rewrite E in Hx. left. apply in_part_handles. right; left. exists (other sd). exact Hx. }
+  destruct Hcase as [H| ->]; auto. right. split.
+  - unfold old_in, h. pose proof (pi_ec _ Hi sd). rewrite ctr16_child by lia. unfold child_handle; cbn.
+    destruct sd; cbn;
+      cbv [KIND_WRITER_GROUP KIND_READER_GROUP KIND_WRITER_WITH_KEY KIND_READER_WITH_KEY KIND_TOPIC]; cbn in *; lia.
+  - destruct (pi_self _ Hi) as (i & _ & E). unfold h. rewrite E. unfold child_handle, part_handle.
+    destruct sd; cbn; intros E'; inversion E'.
+Qed.
+
 Lemma grows_create_endpoint : forall pr sd gh name q, grows (fun p => create_endpoint pr sd p gh name q).
 Proof.
-  intros pr sd gh name q p Hi Ho.
-  destruct (pres_create_endpoint pr sd gh name q p Hi Ho) as (_ & _ & Hp & _).
-  unfold create_endpoint in *.
+  intros pr sd gh name q p Hi. unfold create_endpoint.
   destruct (lookup_topic sd p name); [|split; [apply counters_le_refl|auto]].
   destruct (find_first (is_group gh) (groups sd p)) as [g|] eqn:Hg; [|split; [apply counters_le_refl|auto]].
-  set (cv := bump 65535 (ecounter sd p)) in *.
-  set (h := child_handle (pa_h p) (h_k0 (g_h g)) (lo8 (ecounter sd p)) (hi8 (ecounter sd p)) (ep_kind sd)) in *.
-  (* facts about the push *)
-  assert (Hpush : forall qos, snd cv = false ->
-            counters_le p (fst (push_endpoint sd (set_ecounter sd p cv) g h name qos)) /\
-            forall x, In x (part_handles (fst (push_endpoint sd (set_ecounter sd p cv) g h name qos))) ->
-                      In x (part_handles p) \/ ~ old_in p x /\ x <> pa_h p).
-  { intros qos Hcv. destruct (bump_ok _ _ Hcv) as [Hlt Hfst]. fold cv in Hfst.
-    unfold push_endpoint. cbn [fst]. split; [unfold counters_le; destruct sd; cbn in *; lia|].
-    intros x Hx. apply in_part_handles in Hx. rewrite ps_h, es0_h, ps_tproj in Hx.
-    assert (Et : tproj (set_ecounter sd p cv) = tproj p) by (destruct sd; reflexivity). rewrite Et in Hx.
-    assert (Hcase : In x (part_handles p) \/ x = h).
-    { destruct Hx as [->|[[s Hx]|Hx]]; [left; apply in_part_handles; auto| |left; apply in_part_handles; auto].
-      destruct (side_eq_dec s sd) as [->| ->].
-      - rewrite sproj_set_groups_same, es_groups0 in Hx.
-        apply in_flat_map in Hx. destruct Hx as (ge & Hge & Hx').
-        apply in_map_iff in Hge. destruct Hge as (y & <- & Hy). apply upd_first_in in Hy.
-        destruct Hy as [Hy|(z & Hz & _ & ->)].
-        + left. apply in_part_handles. right; left. exists sd. apply in_flat_map. exists (gproj y). split; auto.
-          apply in_map; auto.
-        + unfold gsk_handles, gproj in Hx'. cbn [fst snd g_h g_eps set_group_eps] in Hx'.
-          assert (Hz' : In x (gsk_handles (gproj z)) -> In x (part_handles p)).
-          { intros H. apply in_part_handles. right; left. exists sd. apply in_flat_map. exists (gproj z).
-            split; [apply in_map; auto|exact H]. }
-          destruct Hx' as [H|H].
-          * left. apply Hz'. left. exact H.
-          * rewrite map_map, map_app, in_app_iff in H. destruct H as [H|H].
-            { left. apply Hz'. right. unfold gproj; cbn [snd]. rewrite map_map. exact H. }
-            { cbn in H. destruct H as [<-|[]]. right. reflexivity. }
-      - assert (E : forall l, sproj (other sd) (set_groups sd (set_ecounter sd p cv) l) = sproj (other sd) p)
-          by (intros; destruct sd; reflexivity).
-        rewrite E in Hx. left. apply in_part_handles. right; left. exists (other sd). exact Hx. }
-    destruct Hcase as [H| ->]; auto. right. split.
-    - unfold old_in, h. pose proof (pi_ec _ Hi sd). rewrite ctr16_child by lia. unfold child_handle; cbn.
-      destruct sd; cbn;
-        cbv [KIND_WRITER_GROUP KIND_READER_GROUP KIND_WRITER_WITH_KEY KIND_READER_WITH_KEY KIND_TOPIC]; cbn in *; lia.
-    - destruct (pi_self _ Hi) as (i & _ & E). unfold h. rewrite E. unfold child_handle, part_handle.
-      destruct sd; cbn; intros E'; inversion E'. }
-  assert (Hpo : forall qos, pa_ovf (fst (push_endpoint sd (set_ecounter sd p cv) g h name qos)) = pa_ovf p || snd cv).
-  { intros qos. unfold push_endpoint. cbn [fst]. rewrite ps_ovf. apply es0_ovf. }
-  assert (Hcnt : snd cv = false -> counters_le p (set_ecounter sd p cv) /\
-                 part_handles (set_ecounter sd p cv) = part_handles p).
-  { intros Hcv. destruct (bump_ok _ _ Hcv) as [Hlt Hfst]. fold cv in Hfst. split.
-    - unfold counters_le. destruct sd; cbn in *; lia.
-    - destruct sd; reflexivity. }
+  set (qchk := match q with
+               | Some x => if is_consistent (ekind_of sd) x then Some x else None
+               | None => Some (g_defq g) end).
   destruct sd.
-  - destruct (panics pr cv) eqn:Hpan.
-    + cbn [fst] in Ho. rewrite es0_ovf in Ho. apply orb_false_iff in Ho. destruct Ho as [_ Ho].
-      apply panics_flag in Hpan. congruence.
-    + destruct q as [x|]; [destruct (is_consistent (ekind_of SPub) x)|].
-      * rewrite Hpo in Ho. apply orb_false_iff in Ho. destruct Ho as [_ Hcv]. apply Hpush; auto.
-      * cbn [fst] in *. rewrite es0_ovf in Ho. apply orb_false_iff in Ho. destruct Ho as [_ Hcv].
-        destruct (Hcnt Hcv) as [H1 H2]. split; [exact H1|intros y Hy; rewrite H2 in Hy; auto].
-      * rewrite Hpo in Ho. apply orb_false_iff in Ho. destruct Ho as [_ Hcv]. apply Hpush; auto.
-  - destruct q as [x|]; [destruct (is_consistent (ekind_of SSub) x); [|split; [apply counters_le_refl|auto]]|].
-    + destruct (panics pr cv) eqn:Hpan.
-      * cbn [fst] in Ho. rewrite es0_ovf in Ho. apply orb_false_iff in Ho. destruct Ho as [_ Ho].
-        apply panics_flag in Hpan. congruence.
-      * rewrite Hpo in Ho. apply orb_false_iff in Ho. destruct Ho as [_ Hcv]. apply Hpush; auto.
-    + destruct (panics pr cv) eqn:Hpan.
-      * cbn [fst] in Ho. rewrite es0_ovf in Ho. apply orb_false_iff in Ho. destruct Ho as [_ Ho].
-        apply panics_flag in Hpan. congruence.
-      * rewrite Hpo in Ho. apply orb_false_iff in Ho. destruct Ho as [_ Hcv]. apply Hpush; auto.
+  - destruct (next_id 65535 (ecounter SPub p)) as [c'|] eqn:Hn; [|split; [apply counters_le_refl|auto]].
+    destruct (next_id_some _ _ _ Hn) as [Hlt ->].
+    destruct qchk as [qos|].
+    + apply (grows_push_endpoint SPub p g name qos Hi Hlt).
+    + cbn [fst]. split; [unfold counters_le; cbn in *; lia|]. intros x Hx. left. exact Hx.
+  - destruct qchk as [qos|]; [|split; [apply counters_le_refl|auto]].
+    destruct (next_id 65535 (ecounter SSub p)) as [c'|] eqn:Hn; [|split; [apply counters_le_refl|auto]].
+    destruct (next_id_some _ _ _ Hn) as [Hlt ->].
+    apply (grows_push_endpoint SSub p g name qos Hi Hlt).
 Qed.
